@@ -90,7 +90,14 @@ func (f fileRes) coqClass() string {
 
 var errCallback = errors.New("callback refuses this record")
 
+// nestedRead: when set, the callback reads this other valid container file to
+// its end before it returns (a callback that follows a reference into another
+// file). What the outer read delivers must not depend on it.
+var nestedRead *genFileT
+
 func readFileImpl(g *GT, file []byte, cbFail int, buffered bool) (res fileRes) {
+	inner := nestedRead
+	nestedRead = nil
 	defer func() {
 		if p := recover(); p != nil {
 			res.Class, res.Err = "panic", fmt.Errorf("%v", p)
@@ -106,6 +113,10 @@ func readFileImpl(g *GT, file []byte, cbFail int, buffered bool) (res fileRes) {
 		v.Set(reflect.NewAt(rt, val).Elem())
 		res.Vals = append(res.Vals, v)
 		res.N++
+		if inner != nil {
+			it := inner.g.RType()
+			_ = avro.ReadFile(bytes.NewReader(inner.file), reflect.New(it).Elem().Interface(), func(unsafe.Pointer, *avro.ResourceBank) error { return nil })
+		}
 		if res.N-1 == cbFail {
 			return errCallback
 		}
@@ -245,6 +256,24 @@ func runC07(r *Run) {
 			r.Fail(id, "valid-rejected", fmt.Sprintf("valid file: %s %v", res.Class, res.Err), desc)
 		} else {
 			checkValues(r, id, gf, res, total, desc, "valid-records")
+		}
+
+		// (1b) the same file while the callback reads another valid file to its end at every record
+		if total > 0 && i%3 == 0 {
+			other := genFile(r, 8)
+			for tries := 0; len(other.wants) == 0 || (tries < 40 && i%2 == 0 && other.ct.Codec != gf.ct.Codec); tries++ {
+				other = genFile(r, 8)
+			}
+			nestedRead = other
+			res := readFileImpl(gf.g, gf.file, -1, false)
+			d2 := withKV(withKV(desc, "callback_reads_file", hexs(other.file)), "callback_reads_target", other.g.Coq())
+			id := addFileCase(r, gf, gf.file, -1, res, d2, fmt.Sprintf("nested/%x", gf.file))
+			r.Count("nested/" + gf.ct.Codec + "+" + other.ct.Codec)
+			if res.Class != "ok" {
+				r.Fail(id, "nested-read-rejected", fmt.Sprintf("valid file, callback reads another file: %s %v", res.Class, res.Err), d2)
+			} else {
+				checkValues(r, id, gf, res, total, d2, "nested-read-records")
+			}
 		}
 
 		// (2) the callback fails at every record index
